@@ -288,7 +288,7 @@ func fmtRouting(rt map[string]multidb.Route) string {
 
 func RunMultiDB(c *sim.Ctx) {
 	nOps := knobInt(c, "ops", 2, 30)
-	c.ProbeDecl("overlapping_pattern_routes", "open_refused_for_table_conflict", "verify_failed_as_expected", "verify_passed_after_restart", "database_type_retired")
+	c.ProbeDecl("overlapping_pattern_routes", "open_refused_for_table_conflict", "verify_failed_as_expected", "verify_passed_after_restart", "database_type_retired", "request_reopened_after_its_database_was_dropped")
 	disks := map[multidb.TypeName]*Disk{"A": NewDisk(), "B": NewDisk()}
 	mkProducers := func() map[multidb.TypeName]kvdb.FullDBProducer {
 		return map[multidb.TypeName]kvdb.FullDBProducer{"A": &fullProducer{d: disks["A"]}, "B": &fullProducer{d: disks["B"]}}
@@ -326,16 +326,19 @@ func RunMultiDB(c *sim.Ctx) {
 		route multidb.Route
 		store kvdb.Store
 	}
-	opened := map[string]*rec{} // successfully opened requests (ever), with the route they were recorded under
+	opened := map[string]*rec{} // successfully opened requests (since their database was last dropped), with the route they were recorded under
+	everDropped := map[string]bool{}
 	byDB := func(r multidb.Route) string { return string(r.Type) + "/" + r.Name }
 
 	gen := func() (sim.Op, bool) {
 		if len(c.Trace.Ops) >= nOps {
 			return sim.Op{}, false
 		}
-		switch c.PickW("op", []int{8, 1}) {
+		switch c.PickW("op", []int{16, 2, 3}) {
 		case 0:
 			return sim.Op{K: "open", A: []int64{int64(c.Pick("req", len(requests)))}}, true
+		case 2:
+			return sim.Op{K: "drop", A: []int64{int64(c.Pick("req", len(requests)))}}, true
 		default:
 			return sim.Op{K: "restart", A: []int64{int64(c.Pick("edit", 3))}}, true
 		}
@@ -379,6 +382,9 @@ func RunMultiDB(c *sim.Ctx) {
 			if old, ok := opened[req]; ok && old.route != route {
 				c.Violation("multidb-open", "multidb-open/reopen-moved", "re-opening %q yields %v, it was recorded as %v", req, route, old.route)
 			}
+			if everDropped[req] {
+				c.Probe("request_reopened_after_its_database_was_dropped")
+			}
 			opened[req] = &rec{route: route, store: st}
 			// a unique pair through this store
 			if err := st.Put([]byte("k"), []byte("owner:"+req)); err != nil {
@@ -399,6 +405,23 @@ func RunMultiDB(c *sim.Ctx) {
 				v, _ := o.store.Get([]byte("k"))
 				if string(v) != "owner:"+oreq {
 					c.Violation("multidb-isolation", "multidb-isolation/overwritten", "store opened for %q reads k=%q", oreq, v)
+				}
+			}
+		case "drop":
+			// the application drops the whole database a request lives in (through that request's store): every
+			// record and pair of the database is gone, the same producer keeps running
+			req := requests[int(op.A[0])%len(requests)]
+			o, ok := opened[req]
+			if !ok || o.route.NoDrop {
+				continue
+			}
+			_ = o.store.Close()
+			o.store.Drop()
+			c.Count("database_drops", 1)
+			for oreq, x := range opened {
+				if byDB(x.route) == byDB(o.route) {
+					delete(opened, oreq)
+					everDropped[oreq] = true
 				}
 			}
 		case "restart":
